@@ -94,7 +94,7 @@ def syntax_family(ck, quick, seed):
                 ck.violation("panic:parse", {"text": t[:600]}, {"text": t})
                 continue
             stats["accepted" if x["ok"] else "rejected"] += 1
-            events.append({"ev": "parse", "case": len(events), "cs": [ord(ch) for ch in t], "ok": x["ok"], "nodes": x.get("nodes", []),
+            events.append({"ev": "parse", "case": len(events), "cs": [ord(ch) for ch in t], "ok": x["ok"], "nodes": x.get("nodes", []), "at": x.get("at", -1),
                            "_text": t, "_res": x})
             kinds.append(kind)
             ck.nontrivial_add(("parse", kind, x["ok"], x.get("descr", "")[:24]))
